@@ -1,9 +1,11 @@
 mod a2lgen;
+mod c03lex;
 mod c12;
 mod c13;
 mod c14;
 mod c17;
 mod common;
+mod soup;
 
 use common::Args;
 
@@ -46,6 +48,7 @@ fn main() {
     }
     common::silence_panics();
     let report = match prop.as_str() {
+        "C03L" => c03lex::run(&args),
         "C12" => c12::run(&args),
         "C13" => c13::run(&args),
         "C14" => c14::run_c14(&args),
